@@ -468,7 +468,7 @@ def E(enc, source, repl, maxpend, caps, alphabet):
 
 
 MC_ENC_QUICK = [
-    E('ISO-2022-JP', 'utf8', False, 2, [4, 5, 6, 64], [0x41, 0x5C, 0x1B, 0xA5, 0x3042, 0xFF61, 0xE9, 0x1F4A9]),
+    E('ISO-2022-JP', 'utf8', False, 2, [4, 5, 6, 64], [0x41, 0x5C, 0x1B, 0xA5, 0x3042, 0xFF61, 0xE9, 0x1F4A9, 0x4E02]),
     E('ISO-2022-JP', 'utf16', True, 2, [14, 15, 16, 17, 24, 64], [0x41, 0x5C, 0x1B, 0xA5, 0x3042, 0xFF61, 0xE9, 0x1F4A9, 0xDCA9]),
     E('Big5', 'utf16', False, 3, [4, 5, 6, 64], [0x41, 0x2550, 0x4E00, 0x2008A, 0xE9, 0x1F4A9, 0xD83D]),
     E('gb18030', 'utf8', True, 3, [14, 15, 17, 18, 64], [0x41, 0x80, 0x20AC, 0x4E00, 0xE5E5, 0xE7C7, 0x1F4A9]),
